@@ -110,6 +110,65 @@ fn graph_scenario(n: usize, slots: usize, untraced: bool, hist: u8, phantom: boo
     }
 }
 
+/// C11: the same kind of program with the exact buffered-set prediction and the buffer walk after every operation.
+fn buffer_scenario(n: usize) {
+    use crate::h_api::{oracle_buffer, oracle_buffer_exact};
+    w().predict = true;
+    build(n, 1, false);
+    oracle_buffer(100);
+    oracle_buffer_exact(100);
+    for i in 0..n {
+        history(i, 3);
+        oracle_buffer(200);
+        oracle_buffer_exact(200);
+    }
+    for i in 0..n {
+        if any_below(2) == 1 {
+            drop_h(i);
+            oracle_buffer(300);
+            oracle_buffer_exact(300);
+            oracle_safety(300);
+        }
+    }
+    let e0 = state::executions_count().unwrap_or(0);
+    let nonempty = state::buffered_objects_count().unwrap_or(0) != 0;
+    predict_collected_begin();
+    collect_cycles();
+    predict_collected_end();
+    let e1 = state::executions_count().unwrap_or(0);
+    check(e1 == e0 + 1, 401); // C11: one per collection actually started
+    let _ = nonempty;
+    oracle_buffer(400);
+    oracle_buffer_exact(400);
+    // one more mutation and the end state
+    let i = any_below(n as u8) as usize;
+    match any_below(4) {
+        0 => drop_h(i),
+        1 => clear_slot_top(i, 0),
+        2 => {
+            let j = any_below(n as u8) as usize;
+            set_slot(i, 0, j);
+        }
+        _ => {
+            clone_h(i);
+            drop_h2(i);
+        }
+    }
+    oracle_buffer(500);
+    oracle_buffer_exact(500);
+    collect_quiescent(3, 600);
+    oracle_buffer(600);
+    oracle_buffer_exact(600);
+    oracle_safety(600);
+    oracle_complete(600);
+    cover(1);
+}
+
+#[no_mangle]
+pub fn h_buffer_n3() {
+    buffer_scenario(3);
+}
+
 #[no_mangle]
 pub fn h_graph_n2() {
     graph_scenario(2, 1, false, 3, true, true);
